@@ -700,25 +700,39 @@ var checkDot = ev.Register("dot", func(c *DotCase) ev.Outcome {
 	if c.Labels != nil {
 		d.Label = func(v int) string { return c.Labels[v] }
 	}
-	if c.NodeAttrs != nil {
-		d.NodeAttrs = func(v int) []graphout.DotAttr {
-			var out []graphout.DotAttr
+	// The attribute callbacks hand out windows of ONE table each (a caller's static table of
+	// attributes): every returned slice has spare capacity that runs into the next node's
+	// attributes, so an append by the printer would overwrite them. The tables must be intact
+	// afterwards.
+	var nodeTable, edgeTable []graphout.DotAttr
+	nodeOff, edgeOff := make([]int, n+1), make([]int, n+1)
+	for v := 0; v < n; v++ {
+		nodeOff[v], edgeOff[v] = len(nodeTable), len(edgeTable)
+		if c.NodeAttrs != nil {
 			for _, a := range c.NodeAttrs[v] {
-				out = append(out, a.attr())
+				nodeTable = append(nodeTable, a.attr())
 			}
-			return out
 		}
+		if c.EdgeAttrs != nil {
+			for _, a := range c.EdgeAttrs[v] {
+				edgeTable = append(edgeTable, a.attr())
+			}
+		}
+	}
+	nodeOff[n], edgeOff[n] = len(nodeTable), len(edgeTable)
+	nodeTable = append(nodeTable, graphout.DotAttr{Name: "sentinel", Val: "sentinel"})
+	edgeTable = append(edgeTable, graphout.DotAttr{Name: "sentinel", Val: "sentinel"})
+	nodeBefore, edgeBefore := fmt.Sprint(nodeTable), fmt.Sprint(edgeTable)
+	if c.NodeAttrs != nil {
+		d.NodeAttrs = func(v int) []graphout.DotAttr { return nodeTable[nodeOff[v]:nodeOff[v+1]] }
 	}
 	if c.EdgeAttrs != nil {
-		d.EdgeAttrs = func(v, e int) []graphout.DotAttr {
-			var out []graphout.DotAttr
-			for _, a := range c.EdgeAttrs[v] {
-				out = append(out, a.attr())
-			}
-			return out
-		}
+		d.EdgeAttrs = func(v, e int) []graphout.DotAttr { return edgeTable[edgeOff[v]:edgeOff[v+1]] }
 	}
 	text := d.Sprint(graph.IntGraph(c.Adj))
+	if fmt.Sprint(nodeTable) != nodeBefore || fmt.Sprint(edgeTable) != edgeBefore {
+		return ev.Fail("Dot wrote into the attribute slices returned by the callbacks: node table %s -> %v, edge table %s -> %v", nodeBefore, nodeTable, edgeBefore, edgeTable)
+	}
 	// The property is about what the text *means* as a dot graph - every node and every edge
 	// named once, strings surviving the quoting - not about its layout: the parser accepts any
 	// spacing, statement order, node naming scheme and attribute order.
